@@ -6,7 +6,7 @@
     implementation's trace is internally consistent with its own answers).
     [judge_capture]: the storage of [Registry + CaptureLayer (+ with_filter)] dumped through the
     public API against the model ([corr]) and against the reference specification ([ok]). *)
-From TT Require Export Capture.LayerSpec.
+From TT Require Export Base.Worst Capture.LayerSpec.
 From TT Require Import Tunnel.TypesProofs.
 
 (** * Boolean equalities *)
